@@ -30,9 +30,15 @@ func pick(r *rand.Rand, xs ...string) string { return xs[r.Intn(len(xs))] }
 
 // nearMisses returns values close to s that must NOT be treated as equal to it.
 func nearMisses(s string) []string {
-	out := []string{s + "/", strings.ToUpper(s), " " + s, s + " ", strings.TrimSuffix(s, "e"), s + "\n", "x" + s}
+	cand := []string{s + "/", strings.ToUpper(s), " " + s, s + " ", s + "\n", "x" + s, strings.ToLower(s) + "#"}
 	if len(s) > 0 {
-		out = append(out, s[:len(s)-1])
+		cand = append(cand, s[:len(s)-1], s[1:])
+	}
+	var out []string
+	for _, c := range cand {
+		if c != s {
+			out = append(out, c)
+		}
 	}
 	return out
 }
@@ -129,7 +135,9 @@ func okResponse(r *rand.Rand, now time.Time, n int) *types.Response {
 
 // injectResponseFault applies one fault at response level; returns its description.
 func injectResponseFault(r *rand.Rand, sp *saml2.SAMLServiceProvider, resp *types.Response) fault {
-	inv := func(key, reason, exp, act string) string { return VC("InvalidValue", VS(key), VS(reason), VS(exp), VS(act)) }
+	inv := func(key, reason, exp, act string) string {
+		return VC("InvalidValue", VS(key), VS(reason), VS(exp), VS(act))
+	}
 	miss := func(tag, attr string) string { return VC("MissingElement", VS(tag), VS(attr)) }
 	switch r.Intn(9) {
 	case 0:
@@ -170,7 +178,9 @@ func injectResponseFault(r *rand.Rand, sp *saml2.SAMLServiceProvider, resp *type
 
 // injectAssertionFault applies one fault to assertion a.
 func injectAssertionFault(r *rand.Rand, sp *saml2.SAMLServiceProvider, now time.Time, a *types.Assertion) fault {
-	inv := func(key, reason, exp, act string) string { return VC("InvalidValue", VS(key), VS(reason), VS(exp), VS(act)) }
+	inv := func(key, reason, exp, act string) string {
+		return VC("InvalidValue", VS(key), VS(reason), VS(exp), VS(act))
+	}
 	miss := func(tag, attr string) string { return VC("MissingElement", VS(tag), VS(attr)) }
 	scd := a.Subject.SubjectConfirmation.SubjectConfirmationData
 	switch r.Intn(12) {
